@@ -31,7 +31,7 @@ type c15Hist struct {
 }
 
 func runC15Hist(r *fw.Run, h *c15Hist) []string {
-	lr := &lifeRun{r: r, h: &c14Hist{Socketpair: h.Socketpair}}
+	lr := &lifeRun{r: r, h: &c14Hist{Socketpair: h.Socketpair}, noDeadline: h.NoTimeout}
 	svc, err := varlink.NewService("Verif", "Idle", "1", "u")
 	if err != nil {
 		return []string{"new-service\x00" + err.Error()}
@@ -111,9 +111,12 @@ func runC15Hist(r *fw.Run, h *c15Hist) []string {
 			lr.fail("accept-not-reached", "accept loop is not waiting in Accept")
 			return
 		}
+		// nothing is open: the loop must be waiting in Accept with a deadline armed (a design that arms it when the last
+		// connection ends may do so a moment after the count reached zero)
+		L.waitUntil(lifeBound, func() bool { return L.armed && L.parked })
 		st := L.State()
 		if !st.armed {
-			lr.fail("accept-unarmed", "the service was started with an idle timeout but entered Accept without arming a deadline: it can never time out")
+			lr.fail("accept-unarmed", "the service was started with an idle timeout; no connection is open, but %v after the last one ended the loop waits in Accept without a deadline: it can never time out", lifeBound)
 			return
 		}
 		enters := st.enters
@@ -149,7 +152,9 @@ func runC15Hist(r *fw.Run, h *c15Hist) []string {
 		}
 		st := L.State()
 		if !st.armed {
-			lr.fail("accept-unarmed", "the service was started with an idle timeout but entered Accept without arming a deadline")
+			// no deadline while a connection is open: nothing can expire now. That is a possible design (the deadline is armed
+			// when the last connection ends); whether it is armed when it matters is judged at the idle expiry
+			r.Count("busy_accepts_without_deadline", 1)
 			return
 		}
 		enters := st.enters
@@ -170,7 +175,7 @@ func runC15Hist(r *fw.Run, h *c15Hist) []string {
 			return
 		}
 		if !L.State().armed {
-			lr.fail("accept-unarmed", "after an expiry the loop re-entered Accept without re-arming the deadline: the next idle period can never expire")
+			r.Count("busy_accepts_without_deadline", 1) // judged at the idle expiry, see above
 		}
 		// the open connection is still served
 		if err := roundTrip(c.client, lifeBound); err != nil {
@@ -261,14 +266,18 @@ func runC15Hist(r *fw.Run, h *c15Hist) []string {
 				lr2.waitClosed(c, "client closed it")
 			}
 			L2.WaitParked(lifeBound)
+			if to2 != 0 {
+				// nothing is open any more: the loop must (soon) wait in Accept with a deadline armed
+				L2.waitUntil(lifeBound, func() bool { return L2.armed && L2.parked })
+			}
 			L2.mu.Lock()
-			ever, armed, unarmed := L2.everArmed, L2.armed, L2.unarmedEnters
+			ever, armed := L2.everArmed, L2.armed
 			L2.mu.Unlock()
 			if to2 == 0 && ever {
 				lr.fail("armed-without-timeout", "the same service object was first served with an idle timeout and then without one: the second serving call armed a listener deadline (it would stop by itself)")
 			}
-			if to2 != 0 && (!armed || unarmed > 0) {
-				lr.fail("accept-unarmed", "the same service object was first served without a timeout and then with one: the second serving call entered Accept without an armed deadline")
+			if to2 != 0 && !armed {
+				lr.fail("accept-unarmed", "the same service object was first served without a timeout and then with one: with no connection open the second serving call waits in Accept without an armed deadline")
 			}
 			select {
 			case e := <-done2:
@@ -313,6 +322,11 @@ func c15Enumerate(maxLen int, alpha []string) [][]string {
 				if open == 0 {
 					continue
 				}
+			case "ccsd":
+				if total >= 3 {
+					continue
+				}
+				t++
 			case "close", "abort", "fail", "junk":
 				if open == 0 {
 					continue
@@ -339,7 +353,7 @@ func runC15(r *fw.Run) {
 	for _, h := range hs {
 		seenH[strings.Join(h, " ")] = true
 	}
-	for _, h := range c15Enumerate(r.Pick(5, 7), []string{"connect", "call", "close", "fail", "junk", "expiry"}) {
+	for _, h := range c15Enumerate(r.Pick(5, 7), []string{"connect", "call", "close", "fail", "junk", "ccsd", "expiry"}) {
 		if !seenH[strings.Join(h, " ")] {
 			hs = append(hs, h)
 		}
@@ -359,6 +373,12 @@ func runC15(r *fw.Run) {
 		}
 		r.Journal(w, h)
 		var viol []string
+		t0 := time.Now()
+		defer func() {
+			if d := time.Since(t0); d > 3*time.Second {
+				r.Note("slow history (%.1fs): %v no_timeout=%v reuse=%v prelude=%v", d.Seconds(), h.Steps, h.NoTimeout, h.Reuse, h.Prelude)
+			}
+		}()
 		if p := catch(func() { viol = runC15Hist(r, h) }); p != "" {
 			viol = append(viol, "panic\x00"+p)
 		}
@@ -720,7 +740,7 @@ func replayC15(r *fw.Run, raw json.RawMessage) {
 func init() {
 	fw.Register(&fw.Engine{
 		ID: "C15", Level: "exploration",
-		Rule: "(A) every valid history over {connect, call, close, abort mid-frame, accept-timeout expiry} up to length 5 (quick) / 10 (thorough), and over {connect, call, close, handler fails, frame that is not a call, expiry} up to length 5 / 7, on a controlled listener whose deadline is virtual: SetDeadline(non-zero) arms it and the harness decides when an armed deadline expires by making the parked Accept return a timeout error. Oracle on event order: an expiry injected while a connection is verifiably open (a round trip on it just completed) must be followed by the loop re-arming the deadline and re-entering Accept, the connection still being served; an expiry injected once every connection has been closed by the service and the active count has reached 0 must make the serving call return ServiceTimeoutError with Close called on the listener; entering Accept unarmed although a timeout was requested is reported (it could never time out); every history ends with an idle expiry. A fifth of the histories run with timeout 0: the listener must never be armed, the serving call must not return by itself, Shutdown returns nil. (B) real clock, T = 150 ms, unix and TCP, Listen and Bind+DoListen, one-sided: with one connection open for 2.5 T a second client must still be served; after the last close the call must return ServiceTimeoutError within 200 T; then a dial must fail, the unix socket file must be gone, and a new service must serve the same address at once. non-trivial = history of >= 2 steps; distinct by hash of the history. A quarter of the histories afterwards serve the same object again the other way round (untimed after timed must never arm, timed after untimed must arm before every Accept); a sixth are preceded by a period that is ended by Shutdown while two connections are still open. Real clock also: 26 connections closing at the same instant; a connection made at 0.6 T must postpone the stop to at least T after the client began to dial (exact, one-sided), also when the serving context carries a deadline of its own that passes inside that period (0.85 T after the start) or far later, and while a client Connection to another service of the same process (and that service's accepted connection) stays open.",
+		Rule: "(A) every valid history over {connect, call, close, abort mid-frame, accept-timeout expiry} up to length 5 (quick) / 10 (thorough), and over {connect, call, close, handler fails, frame that is not a call, connection that comes and goes while the loop is inside SetDeadline, expiry} up to length 5 / 7, on a controlled listener whose deadline is virtual: SetDeadline(non-zero) arms it and the harness decides when an armed deadline expires by making the parked Accept return a timeout error. Oracle on event order: an expiry injected while a connection is verifiably open (a round trip on it just completed) must be followed by the loop re-arming the deadline and re-entering Accept, the connection still being served; an expiry injected once every connection has been closed by the service and the active count has reached 0 must make the serving call return ServiceTimeoutError with Close called on the listener; entering Accept unarmed although a timeout was requested is reported (it could never time out); every history ends with an idle expiry. A fifth of the histories run with timeout 0: the listener must never be armed, the serving call must not return by itself, Shutdown returns nil. (B) real clock, T = 150 ms, unix and TCP, Listen and Bind+DoListen, one-sided: with one connection open for 2.5 T a second client must still be served; after the last close the call must return ServiceTimeoutError within 200 T; then a dial must fail, the unix socket file must be gone, and a new service must serve the same address at once. non-trivial = history of >= 2 steps; distinct by hash of the history. A quarter of the histories afterwards serve the same object again the other way round (untimed after timed must never arm, timed after untimed must be armed whenever it waits in Accept with no connection open); a sixth are preceded by a period that is ended by Shutdown while two connections are still open. Real clock also: 26 connections closing at the same instant; a connection made at 0.6 T must postpone the stop to at least T after the client began to dial (exact, one-sided), also when the serving context carries a deadline of its own that passes inside that period (0.85 T after the start) or far later, and while a client Connection to another service of the same process (and that service's accepted connection) stays open.",
 		Assumptions: []string{"bounded progress: 10 s for the accept loop to take its next step", "real-clock part: only margins that hold for a correct service under any load are asserted"},
 		Run:         runC15, Replay: replayC15, CrashIsViolation: true, MinEvals: 100,
 		QuickTimeout: 15 * time.Minute, ThoroughTimeout: 60 * time.Minute,
